@@ -1,4 +1,5 @@
 import RreModel.C15.Lemmas
+import RreModel.C15.CloneLemmas
 import RreModel.C15.LockLemmas
 import RreModel.C15.Generated.KbLocks
 import RreModel.C15.LinLemmas
@@ -206,6 +207,63 @@ theorem bulk_load_state (pre ops : List Op) :
       = run (pre ++ (bulkApplied (run pre) ops).1) := by
   simp [run, List.foldl_append]
 
+/-! ### the remaining public surface: clone, export, snapshot twin (reach audit) -/
+
+/-- **The clone of a knowledge base is the same knowledge base.** After every history, `kb.clone()` lists the same
+rules in the same order, answers every lookup identically, has an exact index (`Rel`), and its version is its number
+of rules. -/
+theorem clone_same_listing_lookups (ops : List Op) :
+    getRules (cloneKB (run ops)) = getRules (run ops) ∧
+    (∀ n, getRule (cloneKB (run ops)) n = getRule (run ops) n) ∧
+    (cloneKB (run ops)).version = ruleCount (run ops) ∧
+    Rel (cloneKB (run ops)) (specRun ops).clone := by
+  have h := rel_run ops
+  have hc := rel_clone h
+  have hl : (specRun ops).clone.listing = (specRun ops).listing := by
+    simp only [Spec.clone, Spec.listing]
+    exact sortDesc_of_sorted _ _ (sortDesc_sorted _ _)
+  refine ⟨?_, fun n => ?_, ?_, hc⟩
+  · simp only [getRules]; rw [hc.rules, h.rules, hl]
+  · rw [sim_getRule hc n, sim_getRule h n]
+    simp only [Spec.lookup, Spec.clone]
+    -- same rules, names pairwise distinct: the first rule of a name is the same in any order
+    exact find_perm (sortDesc_perm _ _) ((names_listing_perm _).nodup_iff.2 h.nodup) n
+  · rw [hc.version]; simp [Spec.clone, ruleCount, h.perm.length_eq]
+
+/-- Histories in which the program clones the knowledge base at arbitrary points, keeps the original, and uses the two
+in turn (`XOp`): the model's observation sequence satisfies the observation-level specification `xrunOk` (what the
+driver evaluates on the implementation's observations) — in the specification the two objects are independent. -/
+theorem clone_histories_meet_spec (K : Nat) (full : Bool) (ops : List XOp) :
+    xrunOk K {} 0 ops (xtrace K full {} ops) = true :=
+  xtrace_ok K full ops rel2_init
+
+/-- … and both objects stay related to their specification states (index exact, sorted, unique names, version). -/
+theorem clone_histories_refine (ops : List XOp) :
+    Rel (xrun {} ops).cur (xspecRun {} ops).cur ∧ Rel (xrun {} ops).spare (xspecRun {} ops).spare :=
+  rel_xrun ops rel2_init
+
+/-- **The clone and the original are independent.** A call on one of them changes nothing of the other: not its state,
+hence none of its observations (`observe`), whatever the call and whatever happened before. -/
+theorem clone_independent (K : Nat) (ops : List XOp) (op : Op) :
+    (xstep (xrun {} ops) (.call op)).1.spare = (xrun {} ops).spare ∧
+    observe K (xstep (xrun {} ops) (.call op)).1.spare = observe K (xrun {} ops).spare ∧
+    (xspecStep (xspecRun {} ops) (.call op)).1.spare = (xspecRun {} ops).spare :=
+  ⟨rfl, rfl, rfl⟩
+
+/-- … and right after the fork the original still shows what it showed: forking does not change it. -/
+theorem fork_keeps_original (ops : List XOp) :
+    (xstep (xrun {} ops) .clone).1.spare = (xrun {} ops).cur := rfl
+
+/-- The twin observers show the specification's listing: `get_rules_snapshot` and the rule blocks of `export_to_grl`
+are the stable descending-salience listing, the export header carries the version and the number of rules. -/
+theorem twins_show_listing (ops : List XOp) :
+    twinsOk (xspecRun {} ops).cur (xrun {} ops).cur.version
+      (getRulesSnapshot (xrun {} ops).cur) (exportView (xrun {} ops).cur) = true :=
+  twins_ok (rel_xrun ops rel2_init).1
+
+example : (cloneKB (run [.add ⟨0, 0, true, 0⟩, .add ⟨1, 10, false, 1⟩, .add ⟨2, 0, true, 2⟩, .remove 0, .setEnabled 2 false])) =
+    ⟨[⟨1, 10, false, 1⟩, ⟨2, 0, false, 2⟩], [(2, 1), (1, 0)], 2⟩ := by decide
+
 def exOps : List Op :=
   [.add ⟨0, 0, true, 0⟩, .add ⟨1, 10, true, 1⟩, .add ⟨2, 0, true, 2⟩, .add ⟨1, -5, true, 3⟩,
    .remove 1, .add ⟨1, 0, true, 5⟩, .setEnabled 2 false, .remove 7]
@@ -234,7 +292,8 @@ theorem methods_two_phase : kbMethods.all Method.twoPhase = true := by decide
 property names, and the four mutators are recognised as mutators -/
 theorem table_covers_api :
     (["add_rule", "remove_rule", "set_rule_enabled", "clear", "get_rule", "get_rules", "get_rule_names",
-      "rule_count", "get_rules_by_salience", "get_rule_by_index", "version", "get_statistics"].all
+      "rule_count", "get_rules_by_salience", "get_rule_by_index", "version", "get_statistics",
+      "get_rules_snapshot", "export_to_grl", "clone"].all
         (fun n => kbMethods.any (fun m => m.name == n && !m.acqs.isEmpty && !m.composite))) = true ∧
     (["add_rule", "remove_rule", "set_rule_enabled", "clear"].all
         (fun n => kbMethods.any (fun m => m.name == n && m.isMutator))) = true ∧
